@@ -94,6 +94,28 @@ class Ctx(object):
         self._wit[hint] = v
         return v
 
+    def decide(self, cond):
+        """True / False when the path condition and the ground hypotheses of this state already decide `cond`
+        (linear-arithmetic check, 300 ms), else None.  Lets a clause be stated in the simple form that holds on the
+        path at hand (e.g. "x is stored in increasing order") instead of a case split the solver has to rediscover."""
+        if cond is True or cond is False:
+            return cond
+        if not isinstance(cond, Sc):
+            return None
+        facts = [p.t for p in self.st.pc if isinstance(p, Sc)] + [h.t for h in self.st.hyps if isinstance(h, Sc)]
+        try:
+            for want, val in ((z3.Not(cond.t), True), (cond.t, False)):
+                sol = z3.Solver()
+                sol.set('timeout', 300)
+                for f in facts:
+                    sol.add(f)
+                sol.add(want)
+                if sol.check() == z3.unsat:
+                    return val
+        except Exception:
+            return None
+        return None
+
     def witness_scalar(self, hint, kind='int'):
         """Existential scalar witness: the implementation's local `hint` while verifying the body,
         a fresh constant at call sites."""
